@@ -131,7 +131,7 @@ Qed.
 (* ---------------------------------------------------------------- the archaic forms do not match *)
 
 Definition legacy_keys : list str :=
-  [lit "file"; lit "action"; lit "qualifiers"; lit "group:"; lit "flavor"].
+  [lit "file"; lit "action"; lit "qualifiers"; lit "group:"; lit "flavor"; lit "common:"; lit "end:"].
 
 Definition head_pass (h : str) : bool := forallb (fun k => mismatch k (lower_str h)) legacy_keys.
 
@@ -204,31 +204,34 @@ Proof.
   repeat split; apply contains_app_ws; auto.
 Qed.
 
-(* a line whose first word is none of the archaic keywords passes _rewrite unchanged *)
-Lemma rewrite_keep raw l h r rest :
+(* a line whose first word is none of the archaic keywords passes _rewrite unchanged, in
+   every state of _rewrite except directly after a Flavor= line *)
+Lemma rewrite_keep ingroup ng cond raw l h r rest :
+  ng <> NGFlavors ->
   prep_line raw = l -> l = h ++ r -> nonempty l = true -> head_pass h = true -> no_syn l = true ->
-  rewrite_go false false NG0 [] (raw :: rest)
-  = bind (rewrite_go false false NG0 [] rest) (fun o => Ok (l :: o)).
+  rewrite_go false ingroup ng cond (raw :: rest)
+  = bind (rewrite_go false ingroup ng cond rest) (fun o => Ok (l :: o)).
 Proof.
-  intros Hp Hl Hne Hh Hs. unfold head_pass, legacy_keys in Hh. cbn [forallb] in Hh.
-  rewrite !andb_true_iff in Hh. destruct Hh as (K1 & K2 & K3 & K4 & K5 & _).
+  intros Hng Hp Hl Hne Hh Hs. unfold head_pass, legacy_keys in Hh. cbn [forallb] in Hh.
+  rewrite !andb_true_iff in Hh. destruct Hh as (K1 & K2 & K3 & K4 & K5 & K6 & K7 & _).
   cbn [rewrite_go]. rewrite Hp. destruct l as [|c0 l0] eqn:El; [discriminate|]. rewrite <- El in *.
   clear El. rewrite Hl at 1. rewrite (key_eq_mismatch _ _ h r K1). cbn [andb].
   rewrite (synonyms_id l Hs). rewrite Hl.
   rewrite (key_eq_mismatch _ _ h r K2).
   unfold qualifiers_match. rewrite (ci_prefix_mismatch _ h r K3).
-  unfold key_colon. rewrite (ci_prefix_mismatch _ h r K4).
-  rewrite (key_eq_mismatch _ _ h r K5). cbn [app]. reflexivity.
+  unfold key_colon. rewrite (ci_prefix_mismatch _ h r K4), (ci_prefix_mismatch _ h r K6), (ci_prefix_mismatch _ h r K7).
+  rewrite (key_eq_mismatch _ _ h r K5). cbn [app].
+  destruct ingroup, ng; try congruence; reflexivity.
 Qed.
 
-Lemma rewrite_skip raw rest :
+Lemma rewrite_skip ingroup ng cond raw rest :
   prep_line raw = [] ->
-  rewrite_go false false NG0 [] (raw :: rest) = rewrite_go false false NG0 [] rest.
+  rewrite_go false ingroup ng cond (raw :: rest) = rewrite_go false ingroup ng cond rest.
 Proof. intros H. cbn [rewrite_go]. now rewrite H. Qed.
 
-Lemma rewrite_junk junk rest :
+Lemma rewrite_junk ingroup ng cond junk rest :
   forallb wf_junk junk = true ->
-  rewrite_go false false NG0 [] (junk ++ rest) = rewrite_go false false NG0 [] rest.
+  rewrite_go false ingroup ng cond (junk ++ rest) = rewrite_go false ingroup ng cond rest.
 Proof.
   induction junk as [|j junk IH]; [reflexivity|]. cbn [forallb]. rewrite andb_true_iff. intros [H1 H2].
   cbn [app]. rewrite rewrite_skip by (apply prep_junk, H1). now apply IH.
@@ -242,15 +245,17 @@ Record core_ok (core h r : str) : Prop := {
   co_head : head_pass h = true;
   co_syn : no_syn core = true }.
 
-Lemma rewrite_line junk indent core h r after rest :
+Lemma rewrite_line ingroup ng cond junk indent core h r after rest :
+  ng <> NGFlavors ->
   forallb wf_junk junk = true -> all_ws indent = true -> no_newline indent = true ->
   core_ok core h r -> wf_after after = true ->
-  rewrite_go false false NG0 [] (junk ++ (indent ++ core ++ after) :: rest)
-  = bind (rewrite_go false false NG0 [] rest) (fun o => Ok ((core ++ ws_of after) :: o)).
+  rewrite_go false ingroup ng cond (junk ++ (indent ++ core ++ after) :: rest)
+  = bind (rewrite_go false ingroup ng cond rest) (fun o => Ok ((core ++ ws_of after) :: o)).
 Proof.
-  intros Hj Hi Hin [Hsp Hok Hf Hh Hs] Ha. rewrite rewrite_junk by exact Hj.
+  intros Hng Hj Hi Hin [Hsp Hok Hf Hh Hs] Ha. rewrite rewrite_junk by exact Hj.
   destruct (wf_after_split after Ha) as (Wa & _).
-  apply (rewrite_keep _ _ h (r ++ ws_of after)).
+  apply (rewrite_keep _ _ _ _ _ h (r ++ ws_of after)).
+  - exact Hng.
   - now apply prep_content.
   - now rewrite Hsp, app_assoc.
   - destruct core; [discriminate|reflexivity].
@@ -524,6 +529,11 @@ Proof.
   cbn [first_not_ws] in Hf. apply negb_true_iff in Hf. unfold drop_ws. now rewrite drop_while_stop.
 Qed.
 
+Lemma ci_else x : ci_prefix (lit "else") (lit "else" ++ x) = Some x.
+Proof. reflexivity. Qed.
+Lemma cs_else x : cs_prefix (lit "else") (lit "else" ++ x) = Some x.
+Proof. reflexivity. Qed.
+
 Lemma classify_elif b w : wf_branch b = true -> all_ws w = true ->
   classify true (elif_core b ++ w) = LElseIf (print_cond (b_cond b)).
 Proof.
@@ -531,14 +541,14 @@ Proof.
   destruct (wf_bracelay_parts _ Hl) as (_ & _ & [A0 _] & [A00 _] & [A1 _] & [A2 _] & _).
   rewrite elif_core_shape. unfold classify, brace_match. rewrite if_head_rb, ascii_eqb_refl.
   rewrite (drop_ws_lit _ (lit "else")) by (exact A0 || reflexivity).
-  change (lit "else" ++ ?x) with (lit "else" ++ x).
-  set (rest := bl_s00 (b_lay b) ++ lit "if" ++ _).
-  replace (ci_prefix (lit "else") (lit "else" ++ rest)) with (Some rest) by (symmetry; apply (ci_prefix_app _ (lit "else")); reflexivity).
-  replace (cs_prefix (lit "else") (lit "else" ++ rest)) with (Some rest) by (symmetry; apply cs_prefix_app).
-  cbn [app lit String.list_ascii_of_string]. unfold rest.
+  match goal with |- context [lit "else" ++ ?X] => remember (lit "else" ++ X) as E eqn:HE end.
+  destruct E as [|a0 l0]; [discriminate HE|]. rewrite HE.
+  rewrite ci_else, cs_else.
+  assert (NE : forall x : str, match lit "else" ++ x with [] => Some LClose | _ :: _ => Some (LElseIf (print_cond (b_cond b))) end
+               = Some (LElseIf (print_cond (b_cond b)))) by reflexivity.
   rewrite (drop_ws_lit _ (lit "if")) by (exact A00 || reflexivity).
   rewrite (if_head_ok (lit "if") _ _ _ eq_refl A1 (brace_tail_no_rp _ _ A2 Hw)).
-  now rewrite (tail_brace_ok _ _ A2 Hw).
+  rewrite (tail_brace_ok _ _ A2 Hw). reflexivity.
 Qed.
 
 Lemma classify_else l w : wf_bracelay l = true -> all_ws w = true ->
@@ -548,13 +558,12 @@ Proof.
   destruct (wf_bracelay_parts _ Hl) as (_ & _ & [A0 _] & _ & _ & [A2 _] & _).
   rewrite else_core_shape. unfold classify, brace_match. rewrite if_head_rb, ascii_eqb_refl.
   rewrite (drop_ws_lit _ (lit "else")) by (exact A0 || reflexivity).
-  set (rest := bl_s2 l ++ c_lb :: w).
-  replace (ci_prefix (lit "else") (lit "else" ++ rest)) with (Some rest) by (symmetry; apply (ci_prefix_app _ (lit "else")); reflexivity).
-  replace (cs_prefix (lit "else") (lit "else" ++ rest)) with (Some rest) by (symmetry; apply cs_prefix_app).
-  cbn [app lit String.list_ascii_of_string]. unfold rest.
+  match goal with |- context [lit "else" ++ ?X] => remember (lit "else" ++ X) as E eqn:HE end.
+  destruct E as [|a0 l0]; [discriminate HE|]. rewrite HE.
+  rewrite ci_else, cs_else.
   assert (E : if_head (drop_ws (bl_s2 l ++ c_lb :: w)) = None).
   { rewrite drop_ws_app by exact A2. unfold drop_ws. rewrite drop_while_stop by reflexivity. reflexivity. }
-  rewrite E. now rewrite (tail_brace_ok _ _ A2 Hw).
+  rewrite E. rewrite (tail_brace_ok _ _ A2 Hw). reflexivity.
 Qed.
 
 Lemma classify_close w : all_ws w = true -> classify true (close_core ++ w) = LClose.
@@ -608,4 +617,240 @@ Proof.
   rewrite drop_ws_app by exact S1. unfold drop_ws. rewrite drop_while_stop by reflexivity.
   unfold paren_group. rewrite ascii_eqb_refl, (split_last_app _ A T NoRp).
   unfold T. rewrite (tail_semi_ok _ _ _ P1 Hw). reflexivity.
+Qed.
+
+(* ---------------------------------------------------------------- the whole file *)
+
+Definition R (ingroup : bool) (ng : newgrp) (cond : str) (lines : list str) : res (list str) :=
+  rewrite_go false ingroup ng cond lines.
+
+(* the raw lines X leave the rewritten lines Y, in every state of _rewrite except directly
+   after a Flavor= line *)
+Definition emits (X Y : list str) : Prop :=
+  forall ingroup ng cond rest, ng <> NGFlavors ->
+    R ingroup ng cond (X ++ rest) = bind (R ingroup ng cond rest) (fun o => Ok (Y ++ o)).
+
+Lemma emits_nil : emits [] [].
+Proof. intros ig ng cd rest _. cbn [app]. destruct (R ig ng cd rest); reflexivity. Qed.
+
+Lemma emits_app X1 Y1 X2 Y2 : emits X1 Y1 -> emits X2 Y2 -> emits (X1 ++ X2) (Y1 ++ Y2).
+Proof.
+  intros H1 H2 ig ng cd rest Hng. rewrite <- app_assoc, H1, H2 by exact Hng.
+  destruct (R ig ng cd rest); cbn [bind]; [|reflexivity]. now rewrite app_assoc.
+Qed.
+
+Lemma emits_flat_map {A} (f g : A -> list str) l :
+  (forall x, In x l -> emits (f x) (g x)) -> emits (flat_map f l) (flat_map g l).
+Proof.
+  induction l as [|x l IH]; intros H; [apply emits_nil|]. cbn [flat_map].
+  apply emits_app; [apply H; left; reflexivity|]. apply IH. intros y Hy. apply H. right. exact Hy.
+Qed.
+
+Lemma emits_line junk indent core h r after :
+  forallb wf_junk junk = true -> all_ws indent = true -> no_newline indent = true ->
+  core_ok core h r -> wf_after after = true ->
+  emits (junk ++ [indent ++ core ++ after]) [core ++ ws_of after].
+Proof.
+  intros Hj Hi Hn Hc Ha ig ng cd rest Hng. unfold R. rewrite <- app_assoc. cbn [app].
+  exact (rewrite_line ig ng cd junk indent core h r after rest Hng Hj Hi Hn Hc Ha).
+Qed.
+
+Definition cmd_out (c : cmd) : str := cmd_core c ++ ws_of (cl_after (c_lay c)).
+Definition brace_out (l : bracelay) (core : str) : str := core ++ ws_of (bl_after l).
+
+Definition item_outs (i : item) : list str :=
+  match i with
+  | ICmd c => [cmd_out c]
+  | IChain b0 elifs els cl =>
+      [brace_out (b_lay b0) (if_core b0)] ++ map cmd_out (b_body b0)
+      ++ flat_map (fun b => [brace_out (b_lay b) (elif_core b)] ++ map cmd_out (b_body b)) elifs
+      ++ (match els with
+          | Some (b, l) => [brace_out l (else_core l)] ++ map cmd_out b
+          | None => []
+          end)
+      ++ [brace_out cl close_core]
+  end.
+
+Lemma emits_cmd c : wf_cmd c = true -> emits (cmd_lines c) [cmd_out c].
+Proof.
+  intros H. destruct (wf_cmd_parts c H) as (_ & _ & Hj & [I1 I2] & _ & _ & Ha & _).
+  unfold cmd_lines, cmd_line, cmd_out. eapply emits_line; eauto using cmd_core_ok.
+Qed.
+
+Lemma flat_map_singleton {A B} (f : A -> B) l : flat_map (fun x => [f x]) l = map f l.
+Proof. induction l as [|x l IH]; [reflexivity|]. cbn. now rewrite IH. Qed.
+
+Lemma emits_cmds body : forallb wf_cmd body = true -> emits (flat_map cmd_lines body) (map cmd_out body).
+Proof.
+  intros H. rewrite <- flat_map_singleton.
+  apply emits_flat_map. intros c Hc. apply emits_cmd. rewrite forallb_forall in H. now apply H.
+Qed.
+
+Lemma emits_brace l core h r : wf_bracelay l = true -> core_ok core h r ->
+  emits (brace_line l core) [brace_out l core].
+Proof.
+  intros Hl Hc. destruct (wf_bracelay_parts _ Hl) as (Hj & [I1 I2] & _ & _ & _ & _ & Ha).
+  unfold brace_line, brace_out. eapply emits_line; eauto.
+Qed.
+
+Lemma wf_branch_parts b : wf_branch b = true ->
+  wf_cond (b_cond b) = true /\ forallb wf_cmd (b_body b) = true /\ wf_bracelay (b_lay b) = true.
+Proof. unfold wf_branch. rewrite !andb_true_iff. tauto. Qed.
+
+Lemma emits_item i : wf_item i = true -> emits (item_lines i) (item_outs i).
+Proof.
+  destruct i as [c|b0 elifs els cl]; cbn [wf_item item_lines item_outs].
+  - apply emits_cmd.
+  - rewrite !andb_true_iff. intros [[[Hb0 Hel] Hels] Hcl].
+    destruct (wf_branch_parts _ Hb0) as (_ & Hc0 & Hl0).
+    apply emits_app; [apply (emits_brace _ _ _ _ Hl0 (if_core_ok b0 Hb0))|].
+    apply emits_app; [apply emits_cmds, Hc0|].
+    apply emits_app.
+    { apply emits_flat_map. intros b Hb. rewrite forallb_forall in Hel. specialize (Hel b Hb).
+      destruct (wf_branch_parts _ Hel) as (_ & Hcb & Hlb).
+      destruct (elif_core_ok b Hel) as (r & Hok & _).
+      apply emits_app; [apply (emits_brace _ _ _ _ Hlb Hok)|apply emits_cmds, Hcb]. }
+    apply emits_app.
+    { destruct els as [[eb el]|]; [|apply emits_nil]. apply andb_true_iff in Hels. destruct Hels as [He1 He2].
+      destruct (else_core_ok el He2) as (r & Hok & _).
+      apply emits_app; [apply (emits_brace _ _ _ _ He2 Hok)|apply emits_cmds, He1]. }
+    apply (emits_brace _ _ _ _ Hcl close_core_ok).
+Qed.
+
+Lemma emits_items is : wf_items is = true -> emits (items_lines is) (flat_map item_outs is).
+Proof.
+  intros H. apply emits_flat_map. intros i Hi. apply emits_item.
+  unfold wf_items in H. rewrite forallb_forall in H. now apply H.
+Qed.
+
+(* ---- classification of the rewritten lines *)
+
+Lemma ws_of_ws after : wf_after after = true -> all_ws (ws_of after) = true.
+Proof. intros H. now destruct (wf_after_split after H). Qed.
+
+Lemma classify_cmds body : forallb wf_cmd body = true ->
+  map (classify true) (map cmd_out body) = map cmd_kind_line body.
+Proof.
+  induction body as [|c body IH]; [reflexivity|]. cbn [forallb map]. rewrite andb_true_iff. intros [H1 H2].
+  rewrite (IH H2). f_equal. unfold cmd_out. apply classify_cmd; [exact H1|].
+  destruct (wf_cmd_parts c H1) as (_ & _ & _ & _ & _ & _ & Ha & _). now apply ws_of_ws.
+Qed.
+
+Lemma classify_item i : wf_item i = true -> map (classify true) (item_outs i) = item_kinds i.
+Proof.
+  destruct i as [c|b0 elifs els cl]; cbn [wf_item item_outs item_kinds].
+  - intros H. apply (classify_cmds [c]). cbn. now rewrite H.
+  - rewrite !andb_true_iff. intros [[[Hb0 Hel] Hels] Hcl].
+    destruct (wf_branch_parts _ Hb0) as (_ & Hc0 & Hl0).
+    destruct (wf_bracelay_parts _ Hl0) as (_ & _ & _ & _ & _ & _ & Ha0).
+    destruct (wf_bracelay_parts _ Hcl) as (_ & _ & _ & _ & _ & _ & Hacl).
+    rewrite !map_app. cbn [map app]. unfold brace_out.
+    rewrite (classify_if b0 _ Hb0 (ws_of_ws _ Ha0)), (classify_cmds _ Hc0). f_equal. f_equal.
+    f_equal.
+    { clear -Hel. induction elifs as [|b r IH]; [reflexivity|]. cbn [forallb] in Hel.
+      apply andb_true_iff in Hel. destruct Hel as [Hb Hr]. cbn [flat_map]. rewrite map_app, (IH Hr). f_equal.
+      destruct (wf_branch_parts _ Hb) as (_ & Hcb & Hlb).
+      destruct (wf_bracelay_parts _ Hlb) as (_ & _ & _ & _ & _ & _ & Hab).
+      cbn [app map]. unfold brace_out. rewrite (classify_elif b _ Hb (ws_of_ws _ Hab)), (classify_cmds _ Hcb). reflexivity. }
+    f_equal.
+    { destruct els as [[eb el]|]; [|reflexivity]. apply andb_true_iff in Hels. destruct Hels as [He1 He2].
+      destruct (wf_bracelay_parts _ He2) as (_ & _ & _ & _ & _ & _ & Hae).
+      cbn [app map]. unfold brace_out. rewrite (classify_else el _ He2 (ws_of_ws _ Hae)), (classify_cmds _ He1). reflexivity. }
+    rewrite (classify_close _ (ws_of_ws _ Hacl)). reflexivity.
+Qed.
+
+Lemma classify_items is : wf_items is = true ->
+  map (classify true) (flat_map item_outs is) = items_kinds is.
+Proof.
+  induction is as [|i is IH]; [reflexivity|]. cbn [wf_items forallb flat_map]. rewrite andb_true_iff.
+  intros [H1 H2]. unfold items_kinds. cbn [flat_map]. rewrite map_app, (classify_item i H1). f_equal. now apply IH.
+Qed.
+
+(* ---- readlines *)
+
+Lemma split_lines_print lines :
+  Forall (fun l => no_newline l = true) lines ->
+  split_lines (flat_map (fun l => l ++ [c_nl]) lines) = lines ++ [[]].
+Proof.
+  intros H. unfold split_lines.
+  assert (E : map_char (chr 13) c_nl (flat_map (fun l => l ++ [c_nl]) lines) = flat_map (fun l => l ++ [c_nl]) lines).
+  { apply map_char_id. induction H as [|l ls Hl _ IH]; [reflexivity|]. cbn [flat_map].
+    rewrite !mem_ascii_app, IH. destruct (no_newline_mem l Hl) as [_ ->]. reflexivity. }
+  rewrite E. clear E. induction H as [|l ls Hl _ IH]; [reflexivity|]. cbn [flat_map].
+  rewrite <- app_assoc. cbn [app]. destruct (no_newline_mem l Hl) as [N _].
+  rewrite (split_on_app c_nl l _ N). cbn [app]. now rewrite IH.
+Qed.
+
+Lemma line_no_newline indent core after :
+  no_newline indent = true -> okl core = true -> wf_after after = true ->
+  no_newline (indent ++ core ++ after) = true.
+Proof.
+  intros H1 H2 H3. unfold wf_after in H3. apply andb_true_iff in H3. destruct H3 as [H3 _].
+  now rewrite !no_newline_app, H1, (okl_no_newline _ H2), H3.
+Qed.
+
+Lemma junk_no_newline junk : forallb wf_junk junk = true -> Forall (fun l => no_newline l = true) junk.
+Proof.
+  rewrite forallb_Forall. apply Forall_impl. intros l H. unfold wf_junk, wf_after in H.
+  apply andb_true_iff in H. tauto.
+Qed.
+
+Lemma cmd_lines_nn c : wf_cmd c = true -> Forall (fun l => no_newline l = true) (cmd_lines c).
+Proof.
+  intros H. destruct (wf_cmd_parts c H) as (_ & _ & Hj & [_ I2] & _ & _ & Ha & _).
+  unfold cmd_lines. apply Forall_app. split; [now apply junk_no_newline|]. constructor; [|constructor].
+  unfold cmd_line. apply line_no_newline; auto. destruct (cmd_core_ok c H). assumption.
+Qed.
+
+Lemma brace_line_nn l core h r : wf_bracelay l = true -> core_ok core h r ->
+  Forall (fun l => no_newline l = true) (brace_line l core).
+Proof.
+  intros Hl Hc. destruct (wf_bracelay_parts _ Hl) as (Hj & [_ I2] & _ & _ & _ & _ & Ha).
+  unfold brace_line. apply Forall_app. split; [now apply junk_no_newline|]. constructor; [|constructor].
+  apply line_no_newline; auto. destruct Hc. assumption.
+Qed.
+
+Lemma Forall_flat_map {A B} (P : B -> Prop) (f : A -> list B) l :
+  (forall x, In x l -> Forall P (f x)) -> Forall P (flat_map f l).
+Proof.
+  induction l as [|x l IH]; intros H; [constructor|]. cbn [flat_map]. apply Forall_app. split.
+  - apply H. left. reflexivity.
+  - apply IH. intros y Hy. apply H. right. exact Hy.
+Qed.
+
+Lemma cmds_lines_nn body : forallb wf_cmd body = true ->
+  Forall (fun l => no_newline l = true) (flat_map cmd_lines body).
+Proof.
+  intros H. apply Forall_flat_map. intros c Hc. apply cmd_lines_nn. rewrite forallb_forall in H. now apply H.
+Qed.
+
+Lemma item_lines_nn i : wf_item i = true -> Forall (fun l => no_newline l = true) (item_lines i).
+Proof.
+  destruct i as [c|b0 elifs els cl]; cbn [wf_item item_lines].
+  - apply cmd_lines_nn.
+  - rewrite !andb_true_iff. intros [[[Hb0 Hel] Hels] Hcl].
+    destruct (wf_branch_parts _ Hb0) as (_ & Hc0 & Hl0).
+    apply Forall_app; split; [apply (brace_line_nn _ _ _ _ Hl0 (if_core_ok b0 Hb0))|].
+    apply Forall_app; split; [apply cmds_lines_nn, Hc0|].
+    apply Forall_app; split.
+    { apply Forall_flat_map. intros b Hb. rewrite forallb_forall in Hel. specialize (Hel b Hb).
+      destruct (wf_branch_parts _ Hel) as (_ & Hcb & Hlb). destruct (elif_core_ok b Hel) as (r & Hok & _).
+      apply Forall_app. split; [apply (brace_line_nn _ _ _ _ Hlb Hok)|apply cmds_lines_nn, Hcb]. }
+    apply Forall_app; split.
+    { destruct els as [[eb el]|]; [|constructor]. apply andb_true_iff in Hels. destruct Hels as [He1 He2].
+      destruct (else_core_ok el He2) as (r & Hok & _).
+      apply Forall_app. split; [apply (brace_line_nn _ _ _ _ He2 Hok)|apply cmds_lines_nn, He1]. }
+    apply (brace_line_nn _ _ _ _ Hcl close_core_ok).
+Qed.
+
+(* the text of a well-formed items list is read as its classified lines *)
+Theorem read_text_print top is : wf_items is = true ->
+  read_text true top (print_table is) = read_blocks true top (items_kinds is).
+Proof.
+  intros H. unfold read_text, print_table.
+  rewrite split_lines_print.
+  2:{ apply Forall_flat_map. intros i Hi. apply item_lines_nn. unfold wf_items in H. rewrite forallb_forall in H. now apply H. }
+  unfold rewrite. pose proof (emits_items is H false NG0 [] [[]]) as E. unfold R in E. rewrite E by discriminate.
+  cbn [rewrite_go prep_line filter drop_ws drop_while cut_comment bind]. rewrite app_nil_r.
+  now rewrite (classify_items is H).
 Qed.
